@@ -250,15 +250,17 @@ theorem LayerInfo.dec_ok {v : Nat} {d : B} {p : Nat} {li : LayerInfo} {p' : Nat}
   obtain ⟨⟨li', p2⟩, e2, hd⟩ := bind_ok hd
   dsimp only at hd
   split at hd
-  · cases hd
-    split at e2
-    · cases e2
-      exact ⟨by decide, by simp⟩
-    · split at e2
-      · rename_i li0 q hq
-        cases e2
-        exact LayerInfo.bodyDec_ok hq
+  · split at hd
+    · cases hd
+    · cases hd
+      split at e2
       · cases e2
+        exact ⟨by decide, by simp⟩
+      · split at e2
+        · rename_i li0 q hq
+          cases e2
+          exact LayerInfo.bodyDec_ok hq
+        · cases e2
   · cases hd
 
 /-- no mask of a record is the 35-byte block with two feathers -/
